@@ -664,13 +664,10 @@ func (rn *runner) one(src string, seed uint64) error {
 		if rk.Head() != "ok" || len(rk.Xs) != 4 {
 			out.Add(res.Finding{Kind: "corr", Op: "corr:rawok:protocol", Input: src, Model: rk.String(), Seed: seed})
 		} else {
-			switch {
-			case rk.Xs[1].S == "1":
+			if rk.Xs[1].S == "1" {
 				out.Hit("rawOK:holds")
-			case rk.Xs[2].S == "1":
-				out.Hit("rawOK:fails-only-by-running-inline(KF09-2 exclusion)")
-			default:
-				out.Add(res.Finding{Kind: "corr", Op: "corr:rawok", Input: src, Impl: pretty(raw), Reason: "the raw tree produced by elementToBox does not satisfy the hypothesis RawOK of the theorems", Seed: seed})
+			} else {
+				out.Add(res.Finding{Kind: "corr", Op: "corr:rawok", Input: src, Impl: pretty(raw), Reason: "the raw tree produced by elementToBox does not satisfy the hypothesis RawOK (pt_rawOK) of the theorems", Seed: seed})
 			}
 			if rk.Xs[3].S != "1" {
 				out.Add(res.Finding{Kind: "corr", Op: "corr:rawok:root", Input: src, Impl: pretty(raw), Reason: "raw root is not a non-running block-level box", Seed: seed})
@@ -734,8 +731,8 @@ func (rn *runner) one(src string, seed uint64) error {
 		out.Add(res.Finding{Kind: "corr", Op: "corr:wf:protocol", Input: src, Model: ans.String(), Seed: seed})
 	} else if ans.Xs[1].S != "1" {
 		// one finding per class of reason; a violation located at a box generated for a descendant of a
-		// running *inline* element is its own class (BlockInInline splits running inline boxes although every
-		// other pass treats running boxes as opaque, so un-fixed-up content is hoisted into the flow)
+		// running *inline* element is its own class (regression detector for the repaired defect KF09-2:
+		// BlockInInline used to split running inline boxes and hoist un-fixed-up content into the flow)
 		runningInline := map[*html.Node]bool{}
 		var walkB func(x bo.Box)
 		walkB = func(x bo.Box) {
@@ -910,7 +907,8 @@ var corpus = []string{
 	`<body><div style="position:running(hd)">a<span>b<div>c</div></span></div>x</body>`,
 	`<html style="display:table"><body>x</body></html>`,
 	`<body><table><tr><td>a<td rowspan=2>b<tr><td colspan=2>c</table></body>`,                 // KF09-1
-	`<body><span style="position:running(hd)">a<div>b</div>c</span>d</body>`,                  // KF09-2
+	`<body><span style="position:running(hd)">a<div>b</div>c</span>d</body>`,                  // fixed KF09-2 (regression)
+	`<style>@page{@top-center{content:element(hd)}}</style><body><span style="position:running(hd)">a<div>b<b>x</b></div>c</span>d</body>`, // fixed KF09-2 (regression)
 	`<body><table><colgroup span=2><col span=3><thead><tr><td>a<tfoot><tr><td>b<tbody><tr><td>c<thead><tr><td>d</table></body>`,
 }
 
@@ -936,6 +934,20 @@ func Run(tier string, seed uint64, modelPath, repo string, out *res.Result) erro
 		if err := rn.one(src, 0); err != nil {
 			return err
 		}
+	}
+	// the corpus documents (they include the minimal inputs of past defects) also go through the whole
+	// renderer: a well-formed box tree must not make layout panic
+	if fonts, ferr := render.NewFonts(repo); ferr == nil {
+		for _, src := range corpus {
+			var rerr error
+			oc := render.Guard(30*time.Second, func() { _, rerr = render.Full(src, fonts, render.Opts{}) })
+			out.Hit("corpus:rendered")
+			if !oc.OK() {
+				out.Add(res.Finding{Kind: "crash", Op: "crash:render-corpus", Input: src, Reason: fmt.Sprint(oc.Panic, " timeout=", oc.Timeout, " ", rerr), Key: oc.Site})
+			}
+		}
+	} else {
+		out.NotChecked = append(out.NotChecked, "corpus render: "+ferr.Error())
 	}
 	n := 20000
 	if tier == "thorough" {
